@@ -427,6 +427,7 @@ func catalogue() []*cat {
 	}
 	theCatalogue = append(theCatalogue, catalogue2()...)
 	theCatalogue = append(theCatalogue, catalogueAny()...)
+	theCatalogue = append(theCatalogue, catalogueConv()...)
 	return theCatalogue
 }
 
